@@ -165,10 +165,36 @@ def rc3(ctx, rid):
     ctx.floor(rid, "whole-collection accessors", n, 4)
 
 
-def invariants(ctx, rid, which=("rc1", "rc2", "rc3")):
+def rc4(ctx, rid):
+    """every rule document of the project's rule directories is loaded: between parsing a rule file and the returned list nothing is
+    filtered out (a 'load each id once' filter keeps whichever same-id document the directory walk meets first — the TypeScript or the
+    JavaScript flavour of one check — so findings depend on file names and on what else is in the project)"""
+    from ..query import DROPPING_ITER
+    prog = ctx.prog
+    f0 = ctx.anchor(rid, r"^ast_grep::config::read_directory_yaml$")
+    if not f0:
+        return
+    f = f0      # its own body and closures (plus new helpers spliced in by the canonicaliser); `--filter` lives in RuleOverwrite::process_configs
+    drops = []
+    for g in prog.family(f):
+        for c in g.calls:
+            if c.bb not in g.live_blocks:
+                continue
+            if c.name in DROPPING_ITER and "Iterator" in (c.callee.get("trait") or c.best) and c.name not in ("filter_map",):
+                drops.append("%s at %s" % (c.name, g.loc(c.line)))
+            if c.name in ("retain", "retain_mut", "dedup", "dedup_by", "dedup_by_key", "truncate", "drain", "remove", "swap_remove", "pop") and "Vec" in c.best:
+                drops.append("%s at %s" % (c.name, g.loc(c.line)))
+    ctx.ob(rid, "read_directory_yaml keeps every rule document it parsed", not drops,
+           "no element-dropping step between the parsed rule files and the returned configs" if not drops else
+           "rule documents are dropped while the rule directories are read (%s): which same-id document survives depends on the order of the directory walk" % drops[:3], where=f0.loc())
+
+
+def invariants(ctx, rid, which=("rc1", "rc2", "rc3", "rc4")):
     if "rc1" in which:
         rc1(ctx, rid)
     if "rc2" in which:
         rc2(ctx, rid)
     if "rc3" in which:
         rc3(ctx, rid)
+    if "rc4" in which:
+        rc4(ctx, rid)
